@@ -350,6 +350,23 @@ def g_random_budget(rng, tier, props):
     return out
 
 
+def g_random_mem(rng, tier, props):
+    """C09: duplicates of slices after consumption with older ids missing, tight budgets, stale unreliable fragments, long runs."""
+    out = []
+    for i in range(n_of(tier, 40, 500)):
+        kinds = rng.choice([["RU"], ["RO"], ["U"], ["U", "RU", "RO"], ["RO", "U"]])
+        tight = rng.random() < 0.4
+        maxmem = rng.choice([2400, 3000, 4000, 8000, 20000]) if tight else 5_000_000
+        chans = [GM.chan(j, k, maxmem=maxmem, resend=rng.choice([100, 300])) for j, k in enumerate(kinds)]
+        lens = rng.choice([[5, 1201, 2401], [1201, 1300, 2401, 3601], None, [0, 1, 100, 1200, 1201]])
+        out.append(GM.random_schedule(rng, "mem-%d" % i, props, chans_sc=chans, chans_cs=chans, ticks=rng.randint(5, 60 if tier == "quick" else 150),
+                                      lens=lens, p_deliver=0.5, p_drop=rng.choice([0.1, 0.3]), p_dup=rng.choice([0.2, 0.4]),
+                                      inorder=rng.choice([0.2, 0.7]), p_recv=rng.choice([0.3, 0.9]),
+                                      dts=rng.choice([(100, 300), (1000, 2999, 3000, 3001), (300,)]),
+                                      budget=rng.choice([60000, 60000, 2400, 1500]), live=not tight))
+    return out
+
+
 def g_random_timing(rng, tier, props):
     out = []
     for i in range(n_of(tier, 40, 500)):
@@ -379,6 +396,10 @@ PLANS = {
                 level="model_checking", assumptions=MSG_ASSUME),
     "C08": Plan("msg", "TraceRenetMon", ["C08"], [("random_acks", g_random_acks), ("random_mixed", g_random_mixed)],
                 mc=[mc_job("conn_acks", "MC_Conn", {"quick": ["MC_C08_q1.cfg", "MC_C08_q2.cfg"], "thorough": ["MC_C08_q1.cfg", "MC_C08_q2.cfg", "MC_C01_t1.cfg"]}, ["C08"])],
+                level="model_checking", assumptions=MSG_ASSUME),
+    "C09": Plan("msg", "TraceRenetMon", ["C09"], [("random_mem", g_random_mem), ("random_mixed", g_random_mixed)],
+                mc=[mc_job("conn_mem", "MC_Conn", {"quick": ["MC_C09_q1.cfg", "MC_C09_q2.cfg", "MC_C09_q3.cfg"],
+                                                    "thorough": ["MC_C09_q1.cfg", "MC_C09_q2.cfg", "MC_C09_q3.cfg", "MC_C09_t1.cfg"]}, ["C09"])],
                 level="model_checking", assumptions=MSG_ASSUME),
     "C14": Plan("msg", "TraceRenetMon", ["C14"], [("random_budget", g_random_budget)],
                 mc=[mc_job("conn_budget", "MC_Conn", {"quick": ["MC_C14_q1.cfg", "MC_C14_q2.cfg", "MC_C14_q3.cfg"],
